@@ -79,21 +79,27 @@ def chain_siblings(ctx) -> List[Chain]:
     return out
 
 
-def _role(ctx, f, n: ast.Name) -> Optional[str]:
-    """'D' (delay) / 'S' (spread) for a name that is the delay/spread parameter or runs over the delays/spreads parameter."""
-    if U.is_param(ctx, f, n):
-        if n.id in DELAY_PARAMS:
-            return "D"
-        if n.id in SPREAD_PARAMS:
-            return "S"
-        return None
-    src = U.element_source(ctx, f, n)
-    if isinstance(src, ast.Name) and U.is_param(ctx, f, src):
-        if src.id in DELAY_PARAMS:
-            return "D"
-        if src.id in SPREAD_PARAMS:
-            return "S"
-    return None
+def _role(ctx, sc: "U.Scope", n: ast.Name) -> Optional[str]:
+    """'D' (delay) / 'S' (spread) for a name whose value is - through locals, loop variables over zip(...), conditional
+    expressions and the parameters of extracted helpers - the `delay`/`delays` resp. `spread`/`spreads` parameter of the anchor
+    function (or an element of it)."""
+    cache = ctx.__dict__.setdefault("_c11_roles", {})
+    k = (sc.key(), id(n))
+    if k in cache:
+        return cache[k]
+    t = U.trace(ctx, sc, n)
+    roles = set()
+    for l in t.values():
+        r = None
+        if l.kind == "param" and isinstance(l.node, ast.Name) and l.scope.parent is None:
+            if l.node.id in DELAY_PARAMS:
+                r = "D"
+            elif l.node.id in SPREAD_PARAMS:
+                r = "S"
+        roles.add(r)
+    out = roles.pop() if len(roles) == 1 else None
+    cache[k] = out
+    return out
 
 
 def _stmt(n):
@@ -109,40 +115,51 @@ def _stmt(n):
 D, S, N = sp.Symbol("d", positive=True), sp.Symbol("s", positive=True), sp.Symbol("n", positive=True)
 
 
-def _order_sites(ctx, f):
-    """Maximal arithmetic expressions that combine a delay-role and a spread-role name."""
-    sites = []
-    for n in walk_shallow(f.node):
-        if not isinstance(n, ast.BinOp):
-            continue
-        if isinstance(parent(n), (ast.BinOp, ast.UnaryOp)):
-            continue
-        roles = {_role(ctx, f, x) for x in ast.walk(n) if isinstance(x, ast.Name)}
-        if "D" in roles and "S" in roles:
-            sites.append(n)
+def _order_sites(ctx, f) -> List[Tuple["U.Scope", ast.AST]]:
+    """Maximal arithmetic expressions that combine a delay-role and a spread-role name, in `f` or in a helper it calls."""
+    cache = ctx.__dict__.setdefault("_c11_sites", {})
+    if f.qual in cache:
+        return cache[f.qual]
+    sites, seen = [], set()
+    for sc in U.helper_scope_tree(ctx, U.Scope(f)):
+        for n in walk_shallow(sc.f.node):
+            if not isinstance(n, ast.BinOp) or id(n) in seen:
+                continue
+            if isinstance(parent(n), (ast.BinOp, ast.UnaryOp)):
+                continue
+            names = [x for x in ast.walk(n) if isinstance(x, ast.Name)]
+            if len(names) < 2:
+                continue
+            roles = {_role(ctx, sc, x) for x in names}
+            if "D" in roles and "S" in roles:
+                seen.add(id(n))
+                sites.append((sc, n))
+    cache[f.qual] = sites
     return sites
 
 
-def _order_names(ctx, f) -> set:
-    """Locals that receive the rounded (d/s)**2 (the kernel order), plus later re-bindings of the same names."""
-    out = set()
-    for site in _order_sites(ctx, f):
-        st = _stmt(site)
-        if isinstance(st, ast.Assign):
-            for t in st.targets:
-                if isinstance(t, ast.Name):
-                    out.add(t.id)
-    return out
-
-
-def _is_order_value(ctx, f, e, names) -> bool:
-    """`e` is an order variable, the explicit dde_approx parameter, or a conditional between such values and a constant."""
-    if isinstance(e, ast.IfExp):
-        arms = [a for a in (e.body, e.orelse) if not isinstance(a, ast.Constant)]
-        return bool(arms) and all(_is_order_value(ctx, f, a, names) for a in arms)
-    if isinstance(e, ast.Name):
-        return e.id in names or (e.id == "dde_approx" and U.is_param(ctx, f, e))
+def _is_order_leaf(l, sites) -> bool:
+    """A traced value is a kernel order: it contains an order site (the rounded (d/s)**2) or is the explicit dde_approx parameter."""
+    if l.kind == "param":
+        return l.scope.parent is None and isinstance(l.node, ast.Name) and l.node.id == "dde_approx"
+    if l.kind == "expr" and not l.sel:
+        return any(U.contains(l.node, site) for _, site in sites)
     return False
+
+
+def _is_order_value(ctx, sc, e, sites) -> Tuple[bool, str]:
+    """Every non-constant value `e` can take is a kernel order (see _is_order_leaf)."""
+    t = U.trace(ctx, sc, e)
+    if t.opaque():
+        l = t.opaque()[0]
+        raise AnalysisError(f"{sc.f.qual}: cannot trace `{ast.unparse(e)}` (stops at `{ast.unparse(l.node)}` in {l.scope.f.qualname})")
+    vals = t.values()
+    bad = [l for l in vals if not _is_order_leaf(l, sites)]
+    if not vals:
+        return False, "only constants"
+    if bad:
+        return False, f"`{ast.unparse(bad[0].node)}` ({bad[0].scope.f.qualname})"
+    return True, ", ".join(sorted({ast.unparse(l.node) for l in vals}))
 
 
 def _wrappers(node):
@@ -163,50 +180,19 @@ def _wrappers(node):
     return chain, node
 
 
-def _rate_leaves(ctx, f, e, at_stmt, depth=0) -> List[Tuple[ast.AST, Optional[str]]]:
-    """Non-constant arithmetic expressions the value `e` can be, with the list they were taken from (if any)."""
-    if depth > 8:
-        raise AnalysisError(f"{f.qual}: rate value nests too deeply")
-    if isinstance(e, ast.Constant):
-        return []
-    if isinstance(e, ast.IfExp):
-        return _rate_leaves(ctx, f, e.body, at_stmt, depth + 1) + _rate_leaves(ctx, f, e.orelse, at_stmt, depth + 1)
-    if isinstance(e, ast.Call) and call_name(e) in ("float", "round") and e.args:
-        return _rate_leaves(ctx, f, e.args[0], at_stmt, depth + 1)
-    if isinstance(e, ast.BinOp):
-        return [(e, None)]
-    if isinstance(e, ast.Name):
-        if U.is_param(ctx, f, e):
-            return [(e, None)]
-        out = []
-        defs = ctx.rd(f).defs_reaching(e)
-        if not defs:
-            raise AnalysisError(f"{f.qual}: `{e.id}` has no definition")
-        for d in defs:
-            v = assigned_value(d, e.id) if isinstance(d, ast.stmt) else None
-            if v is None:
-                raise AnalysisError(f"{f.qual}: definition `{norm(d)}` of `{e.id}` has an unrecognised form")
-            out += _rate_leaves(ctx, f, v, d, depth + 1)
-        return out
-    if isinstance(e, ast.Subscript) and isinstance(e.value, ast.Name):
-        lst = e.value
-        out = []
-        for d in ctx.rd(f).defs_reaching(lst):
-            v = assigned_value(d, lst.id) if isinstance(d, ast.stmt) else None
-            if isinstance(v, ast.ListComp):
-                out += [(x, lst.id) for x, _ in _rate_leaves(ctx, f, v.elt, d, depth + 1)]
-            elif isinstance(v, ast.List) and not v.elts:
-                pass
-            elif isinstance(v, ast.Tuple) and all(isinstance(x, ast.List) and not x.elts for x in v.elts):
-                pass
-            else:
-                raise AnalysisError(f"{f.qual}: list `{lst.id}` is defined by `{norm(d)}` (unrecognised form)")
-        for c in U.mutations_of(f, lst.id):
-            if c.func.attr != "append" or len(c.args) != 1:
-                raise AnalysisError(f"{f.qual}: list `{lst.id}` is extended by `{ast.unparse(c)}` (unrecognised form)")
-            out += [(x, lst.id) for x, _ in _rate_leaves(ctx, f, c.args[0], _stmt(c), depth + 1)]
-        return out
-    raise AnalysisError(f"{f.qual}: rate value `{ast.unparse(e)}` has an unrecognised form")
+def _rate_leaves(ctx, f, e):
+    """(trace, non-constant leaves) of the value registered for a stage coefficient."""
+    t = U.trace(ctx, U.Scope(f), e)
+    if t.opaque():
+        l = t.opaque()[0]
+        raise AnalysisError(f"{f.qual}: rate value `{ast.unparse(e)}` cannot be traced (stops at `{ast.unparse(l.node)}`"
+                            f"{' component ' + str(l.sel) if l.sel else ''} in {l.scope.f.qualname}: unrecognised form)")
+    out, seen = [], set()
+    for l in t.values():
+        if id(l.node) not in seen:
+            seen.add(id(l.node))
+            out.append(l)
+    return t, out
 
 
 def _stage_parts(ctx, ch: Chain, vdefs):
@@ -245,15 +231,15 @@ def r1_order_and_rate(ctx, rid):
     summary = {}
     for ch in chains:
         f = ch.f
+        root = U.Scope(f)
         # ---- order
         sites = _order_sites(ctx, f)
         if not sites:
             raise AnalysisError(f"{rid}: {f.qual}: no expression combining the delay and the spread found (unrecognised form)")
-        order_names = set()
-        for site in sites:
-            def leaf(n):
+        for sc, site in sites:
+            def leaf(n, sc=sc):
                 if isinstance(n, ast.Name):
-                    r = _role(ctx, f, n)
+                    r = _role(ctx, sc, n)
                     if r == "D":
                         return D
                     if r == "S":
@@ -266,7 +252,7 @@ def r1_order_and_rate(ctx, rid):
             chain, outer = _wrappers(site)
             st = _stmt(site)
             facts = {"expression": ast.unparse(outer), "normalised_argument": str(sp.simplify(e)), "reference": "round((d/s)**2)",
-                     "wrappers_inner_to_outer": chain}
+                     "wrappers_inner_to_outer": chain, "in": sc.f.qualname}
             good_arg = sp.simplify(e - (D / S) ** 2) == 0
             good_round = bool(chain) and chain[0] == "round"
             if good_arg and good_round:
@@ -278,26 +264,24 @@ def r1_order_and_rate(ctx, rid):
             else:
                 ctx.violation(rid, f, st, f"(delay/spread)**2 is {'truncated' if chain else 'not rounded'} instead of rounded to the nearest integer "
                                           f"(wrappers: {chain})", facts, label=f"order: {norm(st, 70)}")
-            if isinstance(st, ast.Assign):
-                for t in st.targets:
-                    if isinstance(t, ast.Name):
-                        order_names.add(t.id)
         # ---- rate: from the registered stage coefficient back to its formula
         vdefs = U.var_defs(ctx, f)
         a_t, cd = _rate_constant(ctx, rid, ch, vdefs)
-        leaves = _rate_leaves(ctx, f, cd.fields["value"], cd.stmt)
+        rate_tr, leaves = _rate_leaves(ctx, f, cd.fields["value"])
         if not leaves:
             raise AnalysisError(f"{rid}: {f.qual}: the value of `{a_t}` traces back to constants only")
-        # order variable used for the number of stages
+        # the value that fixes the number of stages, and every name it passes through unchanged
         stage_n = _stage_count_name(ch)
-        for expr, lst in leaves:
+        stage_tr = U.trace(ctx, root, stage_n) if stage_n is not None else None
+        stage_idents = {U.name_ident(ctx, sc_, w) for sc_, w, sel in stage_tr.waypoints if not sel} if stage_tr is not None else set()
+        for l in leaves:
+            expr, sc = l.node, l.scope
             st = _stmt(expr)
-            names = [x for x in ast.walk(expr) if isinstance(x, ast.Name)]
             others = {}
 
-            def leaf(n):
+            def leaf(n, sc=sc, others=others):
                 if isinstance(n, ast.Name):
-                    r = _role(ctx, f, n)
+                    r = _role(ctx, sc, n)
                     if r == "D":
                         return D
                     if r == "S":
@@ -311,32 +295,29 @@ def r1_order_and_rate(ctx, rid):
                 raise AnalysisError(f"{rid}: {f.qual}: rate expression `{ast.unparse(expr)}` is not arithmetic: {ex}")
             num = sp.simplify(r * D)
             facts = {"rate_constant": a_t, "rate_expression": ast.unparse(expr), "normalised": str(sp.simplify(r)), "reference": "n/d",
-                     "from_list": lst, "order_variables": sorted(order_names | {"dde_approx"})}
+                     "through": sorted(set(rate_tr.containers)), "in": sc.f.qualname}
             label = f"rate: {norm(st, 70)}"
             if not (num.is_Symbol and str(num) in others):
                 ctx.violation(rid, f, st, f"the rate registered for the stage coefficient `{a_t}` is `{ast.unparse(expr)}` = {sp.simplify(r)}, not order/delay: "
                                           f"with n stages of rate a the mean delay is n/a, which equals the stated delay only for a = n/d", facts, label=label)
                 continue
             nn = others[str(num)]
-            # n must be the order: an order variable of this function or the explicit dde_approx parameter
-            is_order = nn.id in order_names or (U.is_param(ctx, f, nn) and nn.id == "dde_approx")
+            # n must be the order: every value it can take is a rounded (d/s)**2 or the explicit dde_approx parameter
+            is_order, what = _is_order_value(ctx, sc, nn, sites)
             # ... and the same order that fixes the number of stages
-            tie = _order_tie(ctx, ch, nn, stage_n, lst)
+            tie = _order_tie(ctx, ch, sc, nn, stage_n, stage_tr, stage_idents)
             facts["numerator"] = nn.id
+            facts["numerator_values"] = what
             facts["tie_to_stage_count"] = tie[1]
             if is_order and tie[0]:
                 ctx.ok(rid, f, st, f"rate = {nn.id}/delay with {nn.id} the kernel order", facts, label=label)
             elif not is_order:
-                ctx.violation(rid, f, st, f"the numerator `{nn.id}` of the rate is not the kernel order (order variables: {sorted(order_names)})", facts, label=label)
+                ctx.violation(rid, f, st, f"the numerator `{nn.id}` of the rate is not the kernel order (it can be {what})", facts, label=label)
             else:
                 ctx.violation(rid, f, st, f"the rate uses `{nn.id}` but the number of stages is fixed by a different value ({tie[1]}): mean delay = stages/rate "
                                           f"would differ from the stated delay", facts, label=label)
         # ---- floors (recorded only)
-        floors = []
-        for n in walk_shallow(f.node):
-            if isinstance(n, ast.Assign) and any(isinstance(t, ast.Name) and t.id in order_names for t in n.targets):
-                floors.append(norm(n))
-        summary[f.qualname] = floors
+        summary[f.qualname] = sorted({norm(_stmt(site)) for _, site in sites})
     ctx.info(rid, chains[0].f, chains[0].f.node, "order definitions per sibling (floors for (d/s)**2 < 1 differ between siblings: the scalar form floors at "
                                                  "dde_approx, the matrix form at 1; the property does not fix that case)", {"order_assignments": summary},
              label="sibling difference: floor of the order")
@@ -352,47 +333,19 @@ def _stage_count_name(ch: Chain) -> Optional[ast.Name]:
     return None
 
 
-def _order_tie(ctx, ch: Chain, num: ast.Name, stage_n: Optional[ast.Name], lst: Optional[str]):
-    """Is the numerator of the rate the same order that fixes the number of stages?"""
-    f = ch.f
+def _order_tie(ctx, ch: Chain, sc, num: ast.Name, stage_n: Optional[ast.Name], stage_tr, stage_idents):
+    """Is the numerator of the rate the same order that fixes the number of stages?  The value of the stage count is traced back
+    (through the grouping key, per-slot lists, tuples, helper returns); the numerator must be one of the names that value passed
+    through unchanged (same scope, same name, same reaching definitions)."""
     if stage_n is None:
         return False, "stage loop is not a range over a name"
-    rd = ctx.rd(f)
-    if lst is None:
-        # direct: same name, same reaching definitions
-        same = num.id == stage_n.id and {id(d) for d in rd.defs_reaching(num)} == {id(d) for d in rd.defs_reaching(stage_n)}
-        return same, f"stages: range over `{stage_n.id}`; rate numerator `{num.id}` ({'same' if same else 'different'} definitions)"
-    # through lists: the numerator is appended (as element) to a sibling list in the same block, or is the same comprehension element;
-    # the chain's order comes from a grouping key built of that sibling list (C11-R3 checks the key)
-    if isinstance(parent(num), ast.BinOp):
-        st = _stmt(num)
-        comp = None
-        a = parent(num)
-        while a is not st:
-            if isinstance(a, ast.ListComp):
-                comp = a
-            a = parent(a)
-        if comp is not None:
-            # rates = [X / m if m else 0 for m in delays]; orders = [X if m else 0 for m in delays] in the same block
-            block = parent(st)
-            for sib in getattr(block, "body", []) + getattr(block, "orelse", []):
-                if sib is not st and isinstance(sib, ast.Assign) and isinstance(sib.value, ast.ListComp):
-                    el = sib.value.elt
-                    vals = [el.body, el.orelse] if isinstance(el, ast.IfExp) else [el]
-                    if any(isinstance(v, ast.Name) and v.id == num.id for v in vals) and \
-                            ast.unparse(sib.value.generators[0].iter) == ast.unparse(comp.generators[0].iter):
-                        return True, f"`{num.id}` is also the element of `{ast.unparse(sib.targets[0])}` over the same iterable"
-            return False, f"no order list built from `{num.id}` next to the rate list"
-        block_stmts = getattr(parent(st), "body", [])
-        for sib in block_stmts:
-            if isinstance(sib, ast.Expr) and isinstance(sib.value, ast.Call) and isinstance(sib.value.func, ast.Attribute) \
-                    and sib.value.func.attr == "append" and len(sib.value.args) == 1 and isinstance(sib.value.args[0], ast.Name) \
-                    and sib.value.args[0].id == num.id and sib is not st:
-                a0 = sib.value.args[0]
-                if {id(d) for d in rd.defs_reaching(a0)} == {id(d) for d in rd.defs_reaching(num)}:
-                    return True, f"`{num.id}` is appended to `{sib.value.func.value.id}` in the same iteration with the same definitions"
-        return False, f"`{num.id}` is not recorded as this slot's order in the same iteration"
-    return False, "unrecognised position of the numerator"
+    if U.name_ident(ctx, sc, num) in stage_idents:
+        return True, f"stages: range over `{stage_n.id}`, whose value passes through `{num.id}` ({sc.f.qualname}) with the same definitions"
+    if stage_tr.opaque():
+        l = stage_tr.opaque()[0]
+        raise AnalysisError(f"{ch.f.qual}: the stage count `{stage_n.id}` cannot be traced (stops at `{ast.unparse(l.node)}` in {l.scope.f.qualname})")
+    vals = sorted({ast.unparse(l.node) for l in stage_tr.values()})
+    return False, f"stages: range over `{stage_n.id}`, which takes the values {vals}; none of them is the rate's numerator `{num.id}`"
 
 
 # ---------------------------------------------------------------------------------------------
@@ -1117,52 +1070,71 @@ def r5_identity_shortcut(ctx, rid):
     """A kernel group may use the whole source vector as chain input (instead of index(var, src_indices)) only when
     slot i of the group reads element i of the source, i.e. when its source-index list IS [0, 1, .., N-1] in slot order.
     A test on the sorted list, on its length or on its set also accepts permutations / repeated sources and feeds the
-    edges with each other's source."""
-    import ast as _ast
-    from engine import AnalysisError as _AE
-    from engine.util import call_name as _cn
-    from engine.srcmodel import norm as _norm, walk_shallow as _ws
-    f = ctx.repo.get_func("pyrates/ir/circuit.py", "NetworkGraph._add_edge_buffer")
-    if "var" not in f.params:
-        raise _AE(f"{rid}: parameter `var` of _add_edge_buffer vanished")
+    edges with each other's source.  Both sides of the test are looked at through single-definition locals
+    (`all_sources = list(range(n))` hoisted out of the loop)."""
+    f = U.method(ctx, "_add_edge_buffer")
+    src_param = _source_param(ctx, f)
     sites = []
-    for st in _ws(f.node):
-        if isinstance(st, _ast.If):
+    for st in walk_shallow(f.node):
+        if isinstance(st, ast.If):
             for b in st.body:
-                if isinstance(b, _ast.Assign) and isinstance(b.value, _ast.Name) and b.value.id == "var" \
-                        and any(isinstance(t, _ast.Name) for t in b.targets):
+                if isinstance(b, ast.Assign) and isinstance(b.value, ast.Name) and b.value.id == src_param and U.is_param(ctx, f, b.value) \
+                        and any(isinstance(t, ast.Name) for t in b.targets):
                     # the alternative branches build index(var, ...) inputs
-                    if "index(" in _ast.unparse(st):
+                    if any("index(" in (U.render(ctx, f, x) or "") for o in st.orelse for x in ast.walk(o)
+                           if isinstance(x, (ast.JoinedStr, ast.Constant))):
                         sites.append((st, b))
     if len(sites) != 1:
-        raise _AE(f"{rid}: whole-vector shortcut of the chain input not recognised ({len(sites)} candidates)")
+        raise AnalysisError(f"{rid}: whole-vector shortcut of the chain input not recognised ({len(sites)} candidates)")
     st, asg = sites[0]
     t = st.test
-    facts = {"test": _norm(st)}
-    good = False
-    why = "the test is not an equality of the index list with range(N)"
-    if isinstance(t, _ast.Compare) and len(t.ops) == 1 and isinstance(t.ops[0], _ast.Eq):
+    facts = {"test": norm(st)}
+
+    def resolved(x, depth=0):
+        """x, or the expression a single-definition local stands for"""
+        if isinstance(x, ast.Name) and depth < 4:
+            v = U.single_value(ctx, f, x)
+            if v is not None and not isinstance(v, ast.Constant) and U._names_stable(ctx, f, v, x):
+                return resolved(v, depth + 1)
+        return x
+
+    def is_range_list(x):
+        x = resolved(x)
+        return isinstance(x, ast.Call) and call_name(x) in ("list", "tuple") and len(x.args) == 1 and isinstance(x.args[0], ast.Call) \
+            and call_name(x.args[0]) == "range" and len(x.args[0].args) == 1
+
+    LOSSY = {"sorted", "set", "frozenset", "len", "sum", "max", "min", "unique", "Counter", "all", "any"}
+    good, why = False, None
+    if isinstance(t, ast.Compare) and len(t.ops) == 1 and isinstance(t.ops[0], ast.Eq):
         sides = [t.left, t.comparators[0]]
-        rng = [x for x in sides if isinstance(x, _ast.Call) and _cn(x) in ("list", "tuple") and x.args
-               and isinstance(x.args[0], _ast.Call) and _cn(x.args[0]) == "range" and len(x.args[0].args) == 1]
-        other = [x for x in sides if x not in rng]
+        rng = [x for x in sides if is_range_list(x)]
+        other = [x for x in sides if not is_range_list(x)]
         if len(rng) == 1 and len(other) == 1:
             o = other[0]
-            if isinstance(o, _ast.Call) and _cn(o) in ("list", "tuple") and o.args:
+            if isinstance(o, ast.Call) and call_name(o) in ("list", "tuple") and len(o.args) == 1:
                 o = o.args[0]
-            if isinstance(o, _ast.Name):
+            ro = resolved(o)
+            if isinstance(ro, ast.Call) and call_name(ro) in LOSSY:
+                why = f"the index list is wrapped in {call_name(ro)}(...): permutations or repeated sources pass the test"
+            elif isinstance(o, ast.Name):
                 # the compared name must be the list used by the index(...) alternative (the group's source indices)
-                alt = _ast.unparse(st)
-                used_in_alt = o.id in {n.id for n in _ast.walk(st) if isinstance(n, _ast.Name)} and (f"{{{o.id}[0]}}" in alt or o.id in alt)
-                good = used_in_alt
-                why = f"`{o.id}` is not the index list of the alternative index(var, ...) input" if not good else ""
-            elif isinstance(o, _ast.Call):
-                why = f"the index list is wrapped in {_cn(o)}(...): permutations or repeated sources pass the test"
+                alt_names = {n.id for a in st.orelse for n in ast.walk(a) if isinstance(n, ast.Name)}
+                if o.id in alt_names:
+                    good = True
+                else:
+                    why = f"`{o.id}` is not the index list of the alternative index({src_param}, ...) input"
+        elif not rng:
+            rs = [resolved(x) for x in sides]
+            if any(isinstance(r, ast.Call) and call_name(r) in LOSSY for r in rs):
+                lossy = [call_name(r) for r in rs if isinstance(r, ast.Call) and call_name(r) in LOSSY]
+                why = f"the test compares {lossy[0]}(...) of the group, not the index list itself with range(N): permutations or repeated sources pass"
+    if not good and why is None:
+        raise AnalysisError(f"{rid}: {f.qual}: test `{norm(st)}` of the whole-vector shortcut has an unrecognised form")
     if good:
         ctx.ok(rid, f, st, "whole-vector shortcut only when the group's source indices are exactly 0..N-1 in slot order", facts,
                label="whole-vector chain input requires identity indices")
     else:
-        ctx.violation(rid, f, st, f"the chain input falls back to the whole source vector under `{_norm(st)}`: {why}; slot i would then be "
+        ctx.violation(rid, f, st, f"the chain input falls back to the whole source vector under `{norm(st)}`: {why}; slot i would then be "
                                   f"fed by source element i instead of its own source", facts,
                       label="whole-vector chain input requires identity indices")
 
